@@ -50,7 +50,7 @@ def budget(tier):
 
 
 def essential_labels(tier):
-    return ["executed", "array_dynamic_shape", "has_ref", "has_unionref", "array_of_dynamic_items", "leaf_1byte", "nd_dynamic_strides_from_header"]
+    return ["executed", "array_dynamic_shape", "has_ref", "has_unionref", "array_of_dynamic_items", "leaf_1byte", "nd_dynamic_strides_from_header", "union_with_method"]
 
 
 @st.composite
@@ -58,6 +58,10 @@ def cases(draw, tier):
     cfg = tg.Cfg(tier, max_leaves=8 if tier == "quick" else 12, roots=("struct", "struct", "struct", "array", "array", "unionref"))
     spec = draw(tg.type_specs(cfg))
     value = tg._draw_value(draw, spec, cfg)
+    for s_, _ in tg.subspecs(spec):
+        # one union in two declares a method (dispatch function generated per union, implementations in the members)
+        if s_["k"] == "unionref" and s_["members"] and draw(st.integers(0, 1)) == 0:
+            s_["meth"] = draw(st.integers(1, 2))
     return {"type": spec, "value": value, "exec": draw(st.integers(0, 2)) == 0, "offset": draw(st.sampled_from([0, 8, 24])), "cpu_first": draw(st.booleans()), "decl_first": draw(st.integers(0, 2)) == 0}
 
 
@@ -176,6 +180,8 @@ def run_case(case):
         texts[t] = r
     if any(s["k"] == "scalar" and s["t"] in ("Int8", "UInt8") for s, _ in tg.subspecs(spec)):
         labels.add("leaf_1byte")
+    if any(s.get("meth") for s, _ in tg.subspecs(spec)):
+        labels.add("union_with_method")
     for s, _ in tg.subspecs(spec):
         if s["k"] == "array" and len(s["shape"]) > 1 and any(d is None for d in s["shape"]):
             labels.add("nd_dynamic_strides_from_header")
